@@ -84,7 +84,19 @@ def A3(inp, chunks):
     get(lead, 'raftNextIndex')[b] = 2
     get(lead, 'raftMatchIndex')[b] = 0
     get(lead, 'lastResponseTime')[b] = now
+    # sending takes time: each message may cost more than half the send round's budget (appendEntriesPeriod); the pieces of one
+    # entry still go out together, otherwise an entry with many pieces never arrives
+    slow = inp.flag('slow_link')
+    if slow:
+        clk, real_send, period = so_mod.monotonicTime, ltr.send, lead.conf.appendEntriesPeriod
+
+        def costly_send(node, message):
+            clk.now = clk.now + period * 0.6
+            return real_send(node, message)
+        ltr.send = costly_send
     _, exc = guard(getattr(lead, so.P + 'sendAppendEntries'))
+    if slow:
+        ltr.send = real_send
     msgs = [m for nd, m in ltr.sent if nd == b]
     tags = [m.get('transmission') for m in msgs]
     cl = {'send_no_exception': exc is None}
@@ -140,7 +152,25 @@ def A3(inp, chunks):
         whole2 = whole2 + m['data']
     so2 = whole2.sole_origin()
     cl['resend_carries_the_current_entry'] = exc3 is None and so2 is not None and so2[0] in ep.objs and ep.objs[so2[0]][0][0] is cmd2 and bool(Eq(ep.objs[so2[0]][0][2], term + 1))
-    return Res(cl, nontrivial=True, obs=lambda: dict(tags=tags, sizes=[show(symlen(m['data'])) for m in msgs], exc=show(exc), exc2=show(exc2),
+    # leftovers: pieces of a transfer that was restarted reach the receiver late (they were still on a connection that has been
+    # replaced meanwhile).  (a) pieces without their beginning, (b) the beginning of the new transfer followed by the old pieces:
+    # the glued bytes are no entry.  Nothing may escape the handler, nothing but a complete entry may be appended.
+    recv = getattr(fol, so.P + 'onMessageReceived')
+    exc4 = None
+    log_before = len(so.log_of(fol))
+    for m in msgs[1:]:
+        if exc4 is None:
+            _, exc4 = guard(recv, Node('a'), dict(m))
+    cl['pieces_without_a_beginning_ignored'] = exc4 is None and len(so.log_of(fol)) == log_before
+    if exc4 is None and msgs2:
+        put(fol, 'raftCurrentTerm', term + 2)
+        for m in [msgs2[0]] + msgs[1:] + msgs2[1:]:
+            if exc4 is None:
+                _, exc4 = guard(recv, Node('a'), dict(m))
+        flog2 = so.log_of(fol)
+        cl['glued_pieces_raise_nothing'] = exc4 is None
+        cl['glued_pieces_append_no_entry'] = len(flog2) == log_before
+    return Res(cl, nontrivial=True, obs=lambda: dict(tags=tags, sizes=[show(symlen(m['data'])) for m in msgs], exc=show(exc), exc2=show(exc2), exc4=show(exc4),
                                                      follower_log_len=len(flog)),
                vars=dict(n=n, B=B))
 
